@@ -519,8 +519,42 @@ impl World {
         }
     }
 
+    /// per-peer cap probe (only at quiescence): a peer that has a connection is offered three more
+    /// inbound connections; whatever the manager's bookkeeping of that peer looks like by now, it must
+    /// never keep more than two (the monitor counts what was accepted and has not closed)
+    fn percap_probe(&mut self, out: &mut Vec<String>) {
+        for (n, _) in self.peers.clone() {
+            if self.outstanding() || !self.acc.values().any(|(p, _)| p == &n) {
+                continue;
+            }
+            let mut mine = vec![];
+            for _ in 0..3 {
+                let Some(l) = self.apply(&json!({"a": "inbound"})) else { break };
+                out.push(l.to_string());
+                let Some((&c, _)) = self.tx.iter().rev().find(|(_, t)| t.st == "in_neg") else { break };
+                let Some(l) = self.apply(&json!({"a": "in_est", "c": c, "p": n})) else { break };
+                out.push(l.to_string());
+                if self.tx[&c].st == "accepting" {
+                    if let Some(l) = self.apply(&json!({"a": "accept_ok", "c": c})) {
+                        out.push(l.to_string());
+                        mine.push(c);
+                    }
+                }
+            }
+            for c in mine {
+                if let Some(l) = self.apply(&json!({"a": "closed", "c": c})) {
+                    out.push(l.to_string());
+                }
+            }
+            if !self.outstanding() {
+                out.push(json!({"e": "quiesce"}).to_string());
+            }
+        }
+    }
+
     /// wedge probe for every peer without an accepted connection (only at quiescence)
     fn probes(&mut self, out: &mut Vec<String>) {
+        self.percap_probe(out);
         self.capacity_probe(out);
         for (n, _) in self.peers.clone() {
             if self.acc.values().any(|(p, _)| p == &n) || self.outstanding() {
@@ -641,7 +675,7 @@ fn run_shapes(b0: usize, rng: &mut StdRng, per_class: usize, out: &mut Vec<Strin
 }
 
 fn run_random(b: usize, rng: &mut StdRng, len: usize) -> Vec<String> {
-    let lims: [(i64, i64); 8] = [(-1, -1), (1, 1), (0, 1), (1, 0), (2, 1), (1, 2), (2, 2), (0, 0)];
+    let lims: [(i64, i64); 10] = [(-1, -1), (1, 1), (0, 1), (1, 0), (2, 1), (1, 2), (2, 2), (0, 0), (-1, 1), (3, 1)];
     let (mi, mo) = lims[rng.gen_range(0..lims.len())];
     // every third history runs with two transports (TCP + WebSocket)
     let two = rng.gen_range(0..3) == 0;
